@@ -545,4 +545,122 @@ theorem indexedAssignScalar_semantics (lhs : IView) (x : Int) (m : Mem) (hw : lh
   rw [hw.nonempty]
   simp only [Bool.false_eq_true, if_false, storeAllI, IView.cells, storePairs_zip_map]
 
+/-! ### compound conditional assignment `A.where(B) OP= C`; `FixedArray.where` -/
+
+theorem reads_bin (op : BOp) (l r : Expr) : (Expr.bin op l r).reads = fun ix => l.reads ix ++ r.reads ix := by
+  funext ix; rfl
+
+theorem reads_noalias_leaf (v : View) : (Expr.noalias (Expr.leaf v)).reads = fun ix => [v.addr ix] := by
+  funext ix; rfl
+
+theorem toExpr_conforms (r : WRhs) (dims : List Nat) (h : r.Conforms dims) : r.toExpr.Conforms dims := by
+  cases r with
+  | expr e => exact h
+  | scalar x => exact trivial
+
+theorem toExpr_naSafe (r : WRhs) (lhs : View) (h : r.NaSafe lhs) :
+    ∀ t ∈ r.toExpr.noaliasTerms, SafeFor lhs.addr (idxs lhs.dims) t.reads := by
+  cases r with
+  | expr e => exact h
+  | scalar x => intro t ht; simp [WRhs.toExpr, Expr.noaliasTerms] at ht
+
+/-- `A.where(B) OP= C` as coded (`assign_conditional(B, noalias(A) OP C)`): selected elements become `old OP C` with mask and
+    `C` read before anything is stored, for every overlap of `C` with `A` (it is alias-tested); the mask must be safe to read
+    lazily (F-25) -/
+theorem whereCompound_semantics (op : BOp) (lhs : View) (mask : BExpr) (r : WRhs) (m : Mem) (hw : lhs.WF)
+    (hinj : lhs.Injective) (hc : r.Conforms lhs.dims) (hm : SafeFor lhs.addr (idxs lhs.dims) mask.reads)
+    (hna : r.NaSafe lhs) :
+    whereCompound op lhs mask r m
+      = storeWhere lhs (maskAll mask lhs.dims m)
+          ((idxs lhs.dims).map fun ix => op.ap (m (lhs.addr ix)) (r.toExpr.evalAt m ix)) m := by
+  unfold whereCompound
+  rw [assignConditional_semantics lhs mask _ m hw
+    (show Expr.Conforms lhs.dims (Expr.bin op (Expr.noalias (Expr.leaf lhs)) r.toExpr) from
+      ⟨fun ix h => h, toExpr_conforms r lhs.dims hc⟩) hm ?_]
+  · rfl
+  · intro t ht
+    simp only [Expr.noaliasTerms, List.singleton_append, List.mem_cons] at ht
+    cases ht with
+    | inl h => subst h; exact safeFor_self lhs.addr _ hinj
+    | inr h => exact toExpr_naSafe r lhs hna t h
+
+theorem zip3_mem {α β γ : Type} (k : α) (x : β) (b : γ) :
+    ∀ (l1 : List α) (l2 : List β) (l3 : List γ), ((k, x), b) ∈ (l1.zip l2).zip l3 → (k, b) ∈ l1.zip l3
+  | [], _, _, h => by simp at h
+  | _ :: _, [], _, h => by simp at h
+  | _ :: _, _ :: _, [], h => by simp at h
+  | a :: l1, y :: l2, c :: l3, h => by
+    simp only [List.zip_cons_cons, List.mem_cons, Prod.mk.injEq] at h ⊢
+    rcases h with ⟨⟨h1, _⟩, h3⟩ | h
+    · exact Or.inl ⟨h1, h3⟩
+    · exact Or.inr (zip3_mem k x b l1 l2 l3 h)
+
+/-- a conditional store leaves alone every cell none of whose positions is selected -/
+theorem storeWhere_unselected (lhs : View) (bs : List Bool) (xs : List Int) (m : Mem) (a : Int)
+    (h : ∀ p ∈ lhs.cells.zip bs, p.1 = a → p.2 = false) : storeWhere lhs bs xs m a = m a := by
+  unfold storeWhere
+  apply storePairs_not_mem
+  intro p hp e
+  simp only [List.mem_filterMap] at hp
+  obtain ⟨⟨⟨k, x⟩, b⟩, hq, hq2⟩ := hp
+  cases b with
+  | false => simp at hq2
+  | true =>
+    simp only [if_true, Option.some.injEq] at hq2
+    subst hq2
+    have := h (k, true) (zip3_mem k x true _ _ _ hq) e
+    simp at this
+
+/-- `F.where(B) = C` on a `FixedArray` (no alias test): mask and right-hand side must both be safe to read lazily -/
+theorem fixedWhereAssign_semantics (lhs : View) (mask : BExpr) (r : WRhs) (m : Mem) (hw : lhs.WF)
+    (hm : SafeFor lhs.addr (idxs lhs.dims) mask.reads) (hr : SafeFor lhs.addr (idxs lhs.dims) r.toExpr.reads) :
+    fixedWhereAssign lhs mask r m = storeWhere lhs (maskAll mask lhs.dims m) (r.evalAll lhs.dims m) m := by
+  unfold fixedWhereAssign
+  rw [assignConditional__eq_seq _ _ _ _ hw, seqWhere_frozen lhs mask _ m hm hr]
+  cases r <;> rfl
+
+theorem fixedWhereCompound_semantics (op : BOp) (lhs : View) (mask : BExpr) (r : WRhs) (m : Mem) (hw : lhs.WF)
+    (hinj : lhs.Injective) (hm : SafeFor lhs.addr (idxs lhs.dims) mask.reads)
+    (hr : SafeFor lhs.addr (idxs lhs.dims) r.toExpr.reads) :
+    fixedWhereCompound op lhs mask r m
+      = storeWhere lhs (maskAll mask lhs.dims m)
+          ((idxs lhs.dims).map fun ix => op.ap (m (lhs.addr ix)) (r.toExpr.evalAt m ix)) m := by
+  unfold fixedWhereCompound
+  rw [fixedWhereAssign_semantics lhs mask _ m hw hm ?_]
+  · rfl
+  · show SafeFor lhs.addr (idxs lhs.dims) (Expr.bin op (Expr.noalias (Expr.leaf lhs)) r.toExpr).reads
+    rw [reads_bin, reads_noalias_leaf]
+    exact safeFor_append _ _ _ _ (safeFor_self lhs.addr _ hinj) hr
+
+/-! ### initializer lists -/
+
+theorem fold_zipIdx_write (base s : Int) (xs : List Int) (k : Nat) (m : Mem) :
+    (xs.zipIdx k).foldl (fun m p => write m (base + (p.2 : Int) * s) p.1) m
+      = storePairs (((List.range' k xs.length).map fun (j : Nat) => base + (j : Int) * s).zip xs) m := by
+  induction xs generalizing k m with
+  | nil => simp [storePairs]
+  | cons x xs ih =>
+    simp only [List.zipIdx_cons, List.foldl_cons, List.length_cons, List.range'_succ, List.map_cons, List.zip_cons_cons,
+      storePairs]
+    exact ih (k + 1) _
+
+/-- `v = {x0, x1, ..}` as coded: the whole vector is zeroed (every element: `assignScalar_semantics`), then element `j` of the
+    list is stored at `data_[j*offset_[0]]`, in list order -/
+theorem ilAssign1_semantics (lhs : View) (xs : List Int) (m : Mem) (hw : lhs.WF) :
+    ilAssign1 lhs xs m
+      = storePairs (((List.range xs.length).map fun (j : Nat) => lhs.base + (j : Int) * lhs.strides.headD 0).zip xs)
+          (storeAll lhs ((idxs lhs.dims).map fun _ => 0) m) := by
+  unfold ilAssign1
+  rw [assignScalar_semantics lhs 0 m hw, fold_zipIdx_write, List.range_eq_range']
+
+/-- `data_[j*offset_[0]]` is the address of coordinate `[j]` of a vector -/
+theorem vector_addr (lhs : View) (s : Int) (j : Nat) (h : lhs.strides = [s]) :
+    lhs.addr [j] = lhs.base + (j : Int) * lhs.strides.headD 0 := by
+  simp [View.addr, dot, h]
+
+/-- `(*this)[i]` addresses element `ix` of row `i` where the matrix addresses `i :: ix` -/
+theorem sub_addr (lhs : View) (i : Nat) (ix : List Nat) (s : Int) (ss : List Int) (h : lhs.strides = s :: ss) :
+    (lhs.sub i).addr ix = lhs.addr (i :: ix) := by
+  simp [View.sub, View.addr, dot, h, Int.add_assoc]
+
 end Adept.Assign
